@@ -27,7 +27,9 @@ class TypeScriptHeaderParser(BaseHeaderParser):
     """Extracts and parses TypeScript/JavaScript file headers from JSDoc comments."""
 
     # Pattern to match JSDoc comment at start of file (allowing whitespace before)
-    JSDOC_PATTERN = re.compile(r"^\s*/\*\*\s*(.*?)\s*\*/", re.DOTALL)
+    # The content is stripped after matching: "\s*(.*?)\s*" backtracks cubically on an unterminated
+    # "/**" followed by a long run of whitespace
+    JSDOC_PATTERN = re.compile(r"^\s*/\*\*(.*?)\*/", re.DOTALL)
 
     def extract_header(self, code: str) -> str | None:
         """Extract JSDoc comment from TypeScript/JavaScript code.
@@ -46,7 +48,7 @@ class TypeScriptHeaderParser(BaseHeaderParser):
             return None
 
         # Extract the content inside the JSDoc
-        jsdoc_content = match.group(1)
+        jsdoc_content = match.group(1).strip()
 
         # Clean up the JSDoc content - remove leading * from each line
         return self._clean_jsdoc_content(jsdoc_content)
